@@ -42,6 +42,19 @@ def gen_cases(rng, tier):
     for i in range(n):
         spec = ocpgen.gen_stage(rng, PROFILE)
         spec["objective"] = ocpgen.gen_objective(rng, spec, rng.randint(1, 5))
+        if rng.random() < 0.25 and spec.get("dyn") != "next":
+            # look-alike integrands: the same function of two different symbols of one category (rockit gives every
+            # state the name 'x' and every control the name 'u'; the two integrals must stay two integrals)
+            for cat in rng.sample(["x", "u", "z"], 3):
+                lv = spec["leaves"].get(cat, [])
+                pairs = [(a, b_) for a in lv for b_ in lv if a[1] != b_[1] and a[2:] == b_[2:]]
+                if pairs:
+                    a, b_ = rng.choice(pairs)
+                    fn = rng.choice(["sq", "sin", "tanh"])
+                    grid = rng.choice(["integral", "integral", "intc"])
+                    spec["objective"] = spec["objective"][:3] + [[grid, [fn, a]], ["*", ["c", ocpgen.rnd(rng, 0.5, 2.0)],
+                                                                                  [grid, [fn, b_]]]]
+                    break
         tap = (rng.random() < 0.2) and spec["method"].get("intg") in (None, "rk", "expl_euler")
         if tap:
             spec["solver_options"] = {"ipopt.max_iter": 0, "ipopt.print_level": 0, "print_time": False,
